@@ -38,6 +38,8 @@ def run(ctx: Any, prog: Program) -> None:
     ctx.rule('C17.N3', 'positions are rotated then translated; directions and angles are only rotated', floor=12)
     ctx.rule('C17.N5', 'exactly the visible template objects are collapsed: skipped iff hidden or not vis_shown (when visgroups are stripped)', floor=4)
     ctx.rule('C17.N4', 'fixup_name covers every FixupStyle and leaves @/! names unchanged', floor=4)
+    ctx.rule('C17.N6', '$variable substitution: the variable pattern has no empty alternative whatever the fixup table holds, longer names first', floor=3)
+    n6_substitute(ctx, vm)
 
     co = ins.func('collapse_one')
     # ---- N1 --------------------------------------------------------------------------------------------
@@ -263,7 +265,57 @@ def root(node: ast.AST) -> Optional[str]:
     return node.id if isinstance(node, ast.Name) else None
 
 
+def n6_substitute(ctx: Any, vm: Any) -> None:
+    """Build the regex EntityFixup.substitute compiles for an empty, a one-key and a two-key table (string evaluation of the
+    f-string only) and inspect its parse tree: an empty branch matches before the identifier default and eats only the `$`."""
+    import re._parser as sre          # type: ignore[import-not-found]
+    fn = vm.func('EntityFixup.substitute')
+    comp = [c for c in ast.walk(fn) if isinstance(c, ast.Call) and dotted(c.func) == 're.compile' and c.args and isinstance(c.args[0], ast.JoinedStr)]
+    if len(comp) != 1:
+        raise AnalysisError('EntityFixup.substitute: re.compile(f-string) not found')
+    js = comp[0].args[0]
+    src = ast.unparse(fn)
+    # what the joined list contains besides the escaped keys (an appended default pattern)
+    appended = [c.args[0].value for c in ast.walk(fn) if isinstance(c, ast.Call) and isinstance(c.func, ast.Attribute) and c.func.attr == 'append' and dotted(c.func.value) == 'sections' and c.args and isinstance(c.args[0], ast.Constant)]
+    for label, keys in (('empty table', []), ('one variable', ['x']), ('prefix pair', ['ab', 'a'])):
+        parts = []
+        for v in js.values:
+            if isinstance(v, ast.Constant):
+                parts.append(str(v.value))
+            else:
+                inner = v.value                                              # type: ignore[attr-defined]
+                if isinstance(inner, ast.Call) and isinstance(inner.func, ast.Attribute) and inner.func.attr == 'join' and isinstance(inner.func.value, ast.Constant) and dotted(inner.args[0]) == 'sections':
+                    parts.append(inner.func.value.value.join(list(keys) + appended))
+                else:
+                    raise AnalysisError(f'EntityFixup.substitute: pattern piece `{ast.unparse(inner)}` not recognised')
+        pattern = ''.join(parts)
+        try:
+            tree = sre.parse(pattern)
+        except Exception as exc:                                             # noqa: BLE001
+            ctx.check('C17.N6', False, vm, comp[0], f'{label}: the pattern `{pattern}` does not compile ({exc})', func='EntityFixup.substitute', text=f'variable pattern {label}')
+            continue
+        empty_branch = False
+
+        def walk(items: Any) -> None:
+            nonlocal empty_branch
+            for op, av in items:
+                if str(op) == 'BRANCH':
+                    for br in av[1]:
+                        if len(br) == 0:
+                            empty_branch = True
+                        walk(br)
+                elif str(op) == 'SUBPATTERN':
+                    walk(av[3])
+                elif str(op) in ('MAX_REPEAT', 'MIN_REPEAT'):
+                    walk(av[2])
+        walk(tree)
+        ctx.check('C17.N6', not empty_branch, vm, comp[0], f'{label}: the variable pattern is `{pattern}`: its empty alternative matches first, so `$name` is replaced by the default followed by `name` '
+                  '(an instance collapsed without fixups keeps the variable names as text)', func='EntityFixup.substitute', text=f'variable pattern {label}')
+    ctx.check('C17.N6', 'key=len, reverse=True' in src, vm, fn, 'longer variable names must be tried first (val$varval style references have no delimiter)', func='EntityFixup.substitute', text='longest variable first')
+
+
 MUTANTS = [
+    {'id': 'fixup_pattern_empty_branch', 'file': 'vmf.py', 'find': "            sections.append('[a-z_][a-z0-9_]*')\n            self._matcher = re.compile(\n                rf'(!)?\\$({\"|\".join(sections)})',", 'replace': "            self._matcher = re.compile(\n                rf'(!)?\\$({\"|\".join(sections)}|[a-z_][a-z0-9_]*)',", 'expect': 'C17.N6'},
     {'id': 'hidden_objects_collapsed', 'file': 'instancing.py', 'find': "        if old_brush.hidden or not old_brush.vis_shown:\n            continue", 'replace': "        if not old_brush.vis_shown:\n            continue", 'expect': 'C17.N5'},
     {'id': 'localise_template_brush', 'file': 'instancing.py', 'find': "        new_brush = old_brush.copy(vmf_file=vmf, side_mapping=inst.face_ids, keep_vis=visgroup is not False)\n        vmf.add_brush(new_brush)", 'replace': "        new_brush = old_brush.copy(vmf_file=vmf, side_mapping=inst.face_ids, keep_vis=visgroup is not False)\n        old_brush.localise(origin, orient)\n        vmf.add_brush(new_brush)", 'expect': 'C17.N1'},
     {'id': 'template_ent_added', 'file': 'instancing.py', 'find': "        vmf.add_ent(new_ent)\n        new_ents.append(new_ent)", 'replace': "        vmf.add_ent(old_ent)\n        new_ents.append(new_ent)", 'expect': 'C17.N1'},
